@@ -1,21 +1,15 @@
 import ArgoVerif.Proofs.PopWaitC
-/- Proofs.PopWaitC4 — timing invariant: the `is_empty` load and the lock release. -/
+/- Proofs.PopWaitC4 — timing invariant: the `is_empty` load that returns 0 (pool seen non-empty). -/
 namespace ArgoVerif.Model.PopWait
 open ArgoVerif
 set_option maxHeartbeats 2000000
 
-theorem invC_loadEmpty (k : Kind) (s s' : St) (a : Actor) (v : Bool) (hA : InvA k s) (h : InvC k s)
-    (hs : stepLoadEmpty s a v = some s') : InvC k (bump s' (some a)) := by
+theorem invC_loadEmpty_false (k : Kind) (s s' : St) (a : Actor) (hA : InvA k s) (h : InvC k s)
+    (hs : stepLoadEmpty s a false = some s') : InvC k (bump s' (some a)) := by
   unfold stepLoadEmpty at hs
   split at hs
   · cases hs
-  · rename_i hv
-    have hv : v = s.flag := by simpa using hv
-    cases v
-    · simp only [Bool.false_eq_true, if_false] at hs
-      (repeat' (split at hs)) <;> pointwise hA h a hs
-    · have hq : s.q = [] := hA.flagIff.mp hv.symm
-      simp only [if_true, hq, decide_true, afterEmpty] at hs
-      (repeat' (split at hs)) <;> pointwise hA h a hs
+  · simp only [Bool.false_eq_true, if_false] at hs
+    (repeat' (split at hs)) <;> pointwise hA h a hs
 
 end ArgoVerif.Model.PopWait
